@@ -69,6 +69,8 @@ def check_case(case):
                         return Outcome(aborted="exception:" + type(e).__name__, classes=classes, rounds=t - 1)
                     nl = part.get_node_list()
                     flat = []
+                    if len(nl) <= sd:
+                        raise Violation("layer-size", "the ranking depths 1..floor(log2 n) = %d are not all built (partition has %d layers)" % (sd, len(nl) - 1), t)
                     for h in range(1, sd + 1):
                         layer = nl[h]
                         if len(layer) != 2 ** h:
